@@ -21,6 +21,10 @@ FUNCS = [('modeling.py', 'contracts.py.lin_spec', '_lin._addterm'),
          ('modeling.py', 'contracts.py.function_spec', '_function.__rsub__'),
          ('modeling.py', 'contracts.py.function_spec', '_function.__mul__'),
          ('modeling.py', 'contracts.py.function_spec', '_function.__rmul__'),
+         ('modeling.py', 'contracts.py.function_spec',
+          '_function.__truediv__'),
+         ('modeling.py', 'contracts.py.function_spec',
+          '_function.__itruediv__'),
          ('modeling.py', 'contracts.py.function_index_spec', 'sum'),
          ('modeling.py', 'contracts.py.function_index_spec',
           '_function.__getitem__'),
